@@ -129,12 +129,23 @@ func modelFor(cfg *SolverCfg, assump []*Term, goal *Term) string {
 }
 
 // Discharge runs all non-trivial obligations through the portfolio.
+// Discharge proves the obligations on a pool of workers. The terms created while proving (instances of quantified
+// assumptions, skolemised goals) are dropped from the hash-consing table whenever a few million have accumulated
+// (the pool is drained first), which bounds memory.
 func Discharge(cfg *SolverCfg, obls []*Obligation) {
 	var wg sync.WaitGroup
 	sem := make(chan struct{}, cfg.Parallel)
+	mark := atomic.LoadInt64(&termCounter)
+	last := mark
+	defer func() { sweepInterned(mark) }()
 	for _, o := range obls {
 		if o.Trivial {
 			continue
+		}
+		if atomic.LoadInt64(&termCounter)-last > 6000000 {
+			wg.Wait()
+			sweepInterned(mark)
+			last = atomic.LoadInt64(&termCounter)
 		}
 		wg.Add(1)
 		sem <- struct{}{}
@@ -291,20 +302,7 @@ func CheckSat(cfg *SolverCfg, assump []*Term) solverAnswer {
 	return b
 }
 
-func containsQuant(t *Term) bool {
-	if t.Op == "forall" || t.Op == "exists" {
-		return true
-	}
-	if t.size < 3 {
-		return false
-	}
-	for _, a := range t.Args {
-		if containsQuant(a) {
-			return true
-		}
-	}
-	return false
-}
+func containsQuant(t *Term) bool { return t.hasQuant }
 
 // solveGround tries the quantifier-free weakening of a query with a short timeout.
 func solveGround(cfg *SolverCfg, query string) solverAnswer {
